@@ -44,11 +44,69 @@ class _Rewrite(ast.NodeTransformer):
         return n
 
 
+MUTATORS = ("append", "extend", "add", "update", "discard", "remove", "setdefault", "pop", "clear", "insert")
+
+
+class OrderedSetStub:
+    """Insertion-ordered set with the operations the analysed code uses (model of ordered_set.OrderedSet)."""
+
+    _blockeval_container = True
+
+    def __init__(self, items=()):
+        self.items = []
+        for x in items:
+            self.add(x)
+
+    def add(self, x):
+        if x not in self.items:
+            self.items.append(x)
+
+    def remove(self, x):
+        self.items.remove(x)
+
+    def discard(self, x):
+        if x in self.items:
+            self.items.remove(x)
+
+    def __contains__(self, x):
+        return x in self.items
+
+    def __len__(self):
+        return len(self.items)
+
+    def __getitem__(self, i):
+        return self.items[i]
+
+    def __iter__(self):
+        return iter(self.items)
+
+    def __eq__(self, o):
+        return isinstance(o, OrderedSetStub) and self.items == o.items
+
+    def __repr__(self):
+        return f"OrderedSet({self.items})"
+
+
+class DefaultDictStub(dict):
+    def __init__(self, factory=None):
+        super().__init__()
+        self.factory = factory
+
+    def __missing__(self, k):
+        if self.factory is None:
+            raise KeyError(k)
+        v = self.factory()
+        self[k] = v
+        return v
+
+
 BASE = {
     "isna__": _isna,
     "notna__": lambda v: not _isna(v),
     "isinstance": lambda v, t: isinstance(v, t),
     "repr": repr,
+    "OrderedSet": OrderedSetStub,
+    "defaultdict": DefaultDictStub,
 }
 
 
@@ -137,10 +195,13 @@ class BlockEval:
                     self._block(st.finalbody)
         elif isinstance(st, ast.Expr):
             c = st.value
-            if isinstance(c, ast.Call) and isinstance(c.func, ast.Attribute) and isinstance(c.func.value, ast.Name) and c.func.value.id in self.env and c.func.attr in ("append", "extend", "add", "update", "discard") and not c.keywords:
+            if isinstance(c, ast.Call) and isinstance(c.func, ast.Attribute) and c.func.attr in MUTATORS and not c.keywords and not (isinstance(c.func.value, ast.Name) and c.func.value.id not in self.env):
+                recv = self.env[c.func.value.id] if isinstance(c.func.value, ast.Name) else self.fold(c.func.value)
+                if not isinstance(recv, (list, dict, set)) and not getattr(recv, "_blockeval_container", False):
+                    raise Unknown(f"method call on `{ast.unparse(c.func.value)[:40]}`")
                 args = [self.fold(a) for a in c.args]
-                getattr(self.env[c.func.value.id], c.func.attr)(*args)
-            elif isinstance(c, ast.Constant):
+                getattr(recv, c.func.attr)(*args)
+            elif isinstance(c, (ast.Constant, ast.Name)):
                 pass
             elif isinstance(c, ast.Call) and (ast.unparse(c.func).split(".")[0] in ("logging", "logger", "warnings", "print")):
                 pass
